@@ -79,3 +79,90 @@ pub fn drive(args: &[String]) {
     sink.flush();
     println!("{}", json!({"events": sink.n}));
 }
+
+// ------------------------------------------------------------------ hooked runs (cfg rust_dsymbols_verif)
+
+type Perm = Vec<usize>; // 0-based images
+
+fn compose(p: &Perm, q: &Perm) -> Perm { p.iter().map(|&x| q[x]).collect() }   // first p then q
+fn invert(p: &Perm) -> Perm { let mut r = vec![0; p.len()]; for (i, &x) in p.iter().enumerate() { r[x] = i; } r }
+fn word_perm(act: &Vec<Perm>, w: &[isize]) -> Perm {
+    let n = act[0].len();
+    let mut r: Perm = (0..n).collect();
+    for &g in w { let p = if g > 0 { act[(g - 1) as usize].clone() } else { invert(&act[(-g - 1) as usize]) }; r = compose(&r, &p); }
+    r
+}
+fn closure(gens: &Vec<Perm>, n: usize) -> Vec<Perm> {
+    let id: Perm = (0..n).collect();
+    let mut seen = std::collections::BTreeSet::from([id.clone()]);
+    let mut todo = vec![id];
+    while let Some(x) = todo.pop() { for g in gens { let y = compose(&x, g); if seen.insert(y.clone()) { todo.push(y); } } }
+    seen.into_iter().collect()
+}
+
+/// the action of G (given by its permutation model) on the right cosets of H = <subs>, base coset first;
+/// returned as rows of images under 1..k,-1..-k (1-based coset numbers).  Harness data: the spec verifies it.
+fn coset_action(act1: &Vec<Vec<usize>>, ng: usize, subs: &Vec<Vec<isize>>) -> Vec<Vec<usize>> {
+    let act: Vec<Perm> = act1.iter().map(|p| p.iter().map(|&x| x - 1).collect()).collect();
+    let n = act[0].len();
+    let h = closure(&subs.iter().map(|w| word_perm(&act, w)).collect(), n);
+    let coset_of = |x: &Perm| -> Vec<Perm> { let mut c: Vec<Perm> = h.iter().map(|y| compose(y, x)).collect(); c.sort(); c };   // H x
+    let id: Perm = (0..n).collect();
+    let mut cosets: Vec<Vec<Perm>> = vec![coset_of(&id)];
+    let mut reps: Vec<Perm> = vec![id];
+    let mut rows: Vec<Vec<usize>> = vec![];
+    let gens: Vec<isize> = (1..=ng as isize).chain((1..=ng as isize).map(|g| -g)).collect();
+    let mut k = 0;
+    while k < cosets.len() {
+        let mut row = vec![];
+        for &g in &gens {
+            let x = compose(&reps[k], &word_perm(&act, &[g]));
+            let c = coset_of(&x);
+            let pos = match cosets.iter().position(|d| *d == c) { Some(p) => p, None => { cosets.push(c); reps.push(x); cosets.len() - 1 } };
+            row.push(pos + 1);
+        }
+        rows.push(row);
+        k += 1;
+    }
+    rows
+}
+
+#[cfg(rust_dsymbols_verif)]
+pub fn drive_hooked(args: &[String]) {
+    let out = arg(args, "--out").unwrap();
+    let per_group = arg_usize(args, "--subgroups", 4);
+    let maxorder = arg_usize(args, "--maxorder", 24);
+    let mut sink = Sink::create(&out);
+    let mut rng = rng(111);
+    let mut run = 0;
+    for gr in finite_corpus() {
+        if gr.name == "trivial" || gr.order > maxorder { continue; }
+        let rels = words(&gr.rels);
+        let mut choices = subgroup_choices(gr.ng, &mut rng, per_group, per_group / 2, 2);
+        choices.retain(|s| s.iter().all(|w| !w.is_empty()));
+        for subs in choices {
+            let act = coset_action(&gr.act, gr.ng, &subs);
+            run += 1;
+            let tag = format!("r{run}");
+            sink.emit(json!({"ev": "header", "run": tag, "name": gr.name, "ng": gr.ng, "rels": gr.rels, "subs": subs, "gact": gr.act, "order": gr.order,
+                             "truen": act.len(), "act": act}));
+            let _ = rust_dsymbols::verif::take();
+            let sw = words(&subs);
+            let r = catch(|| coset_table(gr.ng, &rels, &sw));
+            let evs = rust_dsymbols::verif::take();
+            for e in evs {
+                let mut v: Value = serde_json::from_str(&e).expect("hook event");
+                v["run"] = json!(tag);
+                sink.emit(v);
+            }
+            if let Err(m) = r { sink.emit(json!({"ev": "return", "run": tag, "panic": m})); }
+        }
+    }
+    sink.flush();
+    println!("{}", json!({"events": sink.n, "runs": run}));
+}
+
+#[cfg(not(rust_dsymbols_verif))]
+pub fn drive_hooked(_args: &[String]) {
+    println!("{}", json!({"events": 0, "runs": 0, "hooks": "not compiled in"}));
+}
